@@ -22,6 +22,7 @@ type c03Flight struct {
 	Kind    string `json:"kind"` // plain | upgrade | sse
 	DurMs   int    `json:"dur_ms"`
 	Rollout bool   `json:"rollout"` // carries the rollout cookie (split is 100%)
+	Offer   bool   `json:"offer"`   // offers a protocol upgrade (Upgrade: h2c) that the target ignores
 }
 
 type c03Plan struct {
@@ -54,6 +55,7 @@ func c03Gen(t *rapid.T) c03Plan {
 		f.DurMs = rapid.SampledFrom([]int{1, p.CmdAtMs, p.CmdAtMs + 1, deadline / 2, deadline - 1, deadline, deadline + 1, deadline * 3, 60000}).Draw(t, "dur")
 		f.DurMs = max(f.DurMs, 1)
 		f.Rollout = p.Rollout > 0 && rapid.IntRange(0, 2).Draw(t, "to-rollout") == 0
+		f.Offer = f.Kind == "plain" && rapid.IntRange(0, 3).Draw(t, "offer") == 0
 		p.Flights = append(p.Flights, f)
 	}
 	nl := rapid.IntRange(0, 4).Draw(t, "nlate")
@@ -178,6 +180,10 @@ func c03RunMode(t *testing.T, p c03Plan, mode string) (res vfResult) {
 			req := vfNewRequest("GET", "svc.test", "/x", ctl, nil)
 			if f.Rollout {
 				req.Header.Set("Cookie", RolloutCookieName+"=v")
+			}
+			if f.Offer {
+				req.Header.Set("Connection", "Upgrade")
+				req.Header.Set("Upgrade", "h2c")
 			}
 			o.pend = w.goDo(r, req)
 		}
